@@ -51,7 +51,8 @@ Fixpoint evaluate_cfgs (lk : nat -> option bool) (cfgs : list nat) : option bool
 Inductive data_err :=
   | EExceeds (name : nat)                  (* "attribute id may not exceed 255" *)
   | EAssigned (id : N) (name holder : nat) (* "attribute id N is already assigned to holder" *)
-  | ELookupPanic.
+  | ELookupPanic
+  | EParse.                                (* the declaration does not parse (an explicit id above 255) *)
 
 (** advance_attribute_id: explicit id, else checked successor of the last, else the first id;
     then the collision map. [ids] is the map as an association list (id, holder). *)
@@ -133,6 +134,7 @@ Definition enc_world (r : data_err + list darch) : list N :=
   | inl (EExceeds n) => [0; 1]%N
   | inl (EAssigned i n h) => [0; 2; i; N.of_nat h]%N
   | inl ELookupPanic => [0; 3]%N
+  | inl EParse => [0; 99]%N
   | inr ds => 1%N :: N.of_nat (length ds) ::
               concat ((fun a => da_id a :: N.of_nat (da_name a) :: N.of_nat (length (da_comps a)) ::
                                 concat ((fun c => [dc_id c; N.of_nat (dc_name c)]) <$> da_comps a)) <$> ds)
@@ -165,12 +167,20 @@ Definition enc_query (w : list darch) (r : gen_err + list (option (list qparam))
                                      | None => [] end) <$> zip w arms)
   end.
 
+(** Parsing comes first: an explicit id must fit the u8 field it is parsed into, on every item,
+    whether its cfg enables it or not. *)
+Definition id_parses (x : option N) : bool := match x with Some i => (i <=? explicit_id_max)%N | None => true end.
+Definition parse_ok (w : list parch) : bool :=
+  forallb (fun a => id_parses (pa_id a) && forallb (fun c => id_parses (pc_id c)) (pa_comps a)) w.
+Definition data_world_parsed (w : list parch) (states : list bool) : data_err + list darch :=
+  if parse_ok w then data_world_new w states else inl EParse.
+
 Definition mcheck_world (w : list parch) (states : list bool) (impl : list N) : option (list N) :=
-  let m := enc_world (data_world_new w states) in if decide (m = impl) then None else Some m.
+  let m := enc_world (data_world_parsed w states) in if decide (m = impl) then None else Some m.
 
 Definition mcheck_query (w : list parch) (wstates : list bool) (ps : list qparam) (qstates : list bool) (impl : list N)
   : option (list N) :=
-  let m := match data_world_new w wstates with
+  let m := match data_world_parsed w wstates with
            | inl _ => [0; 9]%N
            | inr ds => match query_with_states ps qstates with
                        | None => [0; 8]%N
